@@ -131,8 +131,20 @@ def run_case(case):
     opts = {'verbose': case['verbose']}
     if case['buffer']:
         opts['buffer'] = True
-    w = common.run_world(spec, None, opts,
-                         mode='cli' if case['cli'] else 'in')
+    # the XML formatting wrapper sits between the result and the formatter
+    # that prints the captured output: a sixth of the runs go through it
+    xml = rng.random() < 0.17
+    xargv = []
+    if xml:
+        import vworld as _vw
+        xdir = _vw.scratch_dir('c13xml-')
+        xargv = ['--xml', xdir]
+    try:
+        w = common.run_world(spec, None, opts, extra_argv=xargv,
+                             mode='cli' if case['cli'] else 'in')
+    finally:
+        if xml:
+            _vw.destroy(xdir)
     viol = []
     counters = {}
 
@@ -249,6 +261,7 @@ def run_case(case):
         sig = [case['seq'], sorted((v[0], v[1], v[2], v[3])
                                    for v in tokens.values()), opts]
     C('stream_swapping_tests', len(swaps))
+    C('runs_through_xml_wrapper', 1 if xml else 0)
     return {'viol': viol, 'evals': 1, 'sig': sig, 'counters': counters,
             'sample': {'seq': case['seq'], 'opts': opts,
                        'tokens': {k: list(v) for k, v in
